@@ -97,8 +97,9 @@ Section Sound.
     destruct (s0 s && is_spec e 2) eqn:G2.
     { pin G2 e s HS. rewrite kq2, kqc2. eexists; split; [reflexivity|]. exists (w8 O), (w8c O). split; [apply (w8_unit O L)|].
       rewrite body1' by two. exact (qasm_rule_sx O L). }
-    destruct (s0 s && is_spec e (-2)) eqn:G3.
-    { pin G3 e s HS. rewrite kqm2, kqcm2. eexists; split; [reflexivity|]. exists (w8c O), (w8 O). split; [rewrite <- (w8_unit O L); ring|].
+    destruct (s0 s && is_spec e (-2) && negb v3) eqn:G3.
+    { apply andb_prop in G3. destruct G3 as [G3 _].
+      pin G3 e s HS. rewrite kqm2, kqcm2. eexists; split; [reflexivity|]. exists (w8c O), (w8 O). split; [rewrite <- (w8_unit O L); ring|].
       rewrite body1' by two. exact (qasm_rule_sxdg O L). }
     destruct e as [k|]; cbn [eunit fst snd].
     - eexists; split; [reflexivity|]. apply (rot_rx _ _ g gc); [apply kpowZ_unit; exact Uq | exact Ug].
@@ -346,6 +347,43 @@ Section Sound.
     Proof. unfold emit_shape. eexists; split; [reflexivity|]. with_phase U Uf Uz (k1 O) (k1 O). Qed.
   End Phased.
 End Sound.
+
+(* ---- the rows of a key use only mnemonics that the include file of the key's version defines (stdgates.inc has no sxdg),
+   for every family, shift class and exponent class; mnem_defined is Vendor/Qasm.v qdefined on the row's gate ---- *)
+Theorem emit_uses_defined_gates v3 f s e : rows_defined v3 (emit_shape (v3, f, s, e)) = true.
+Proof.
+  unfold emit_shape, rows_defined, one, rot.
+  destruct f; try reflexivity;
+    repeat match goal with |- context [if ?c then _ else _] => let E := fresh "E" in destruct c eqn:E end; try reflexivity.
+  (* FX, the sxdg branch: its guard contains negb v3 *)
+  apply andb_prop in E1. destruct E1 as [_ E1]. cbn. rewrite E1. reflexivity.
+Qed.
+Theorem mnem_defined_is_qdefined {K : Type} (O : Ops K) v3 us q qc r g :
+  row_gate O us q qc r = Some g -> qdefined v3 g = mnem_defined v3 (fst (fst r)).
+Proof.
+  destruct r as [[m angles] args]. unfold row_gate. cbn [fst snd].
+  destruct m; destruct angles as [|a0 [|a1 [|a2 [|a3 l]]]]; intros H; try discriminate H; inversion H; reflexivity.
+Qed.
+Example row_gate_sxdg_instance : row_gate K8Ops [] (k1 K8Ops) (k1 K8Ops) (Msxdg, [], [0%nat]) = Some QSxdg
+                                  /\ qdefined (K:=K8) true QSxdg = false /\ qdefined (K:=K8) false QSxdg = true.
+Proof. repeat split. Qed.
+(* version 3.0 never emits sxdg, version 2.0 still does (X**-0.5, shift 0) *)
+Theorem emit_sxdg_only_v2 : emit_shape (false, FX, S0, ESpec (-2)) = Some [(Msxdg, [], [0])]
+                            /\ emit_shape (true, FX, S0, ESpec (-2)) = Some [(Mrx, [const_angle (-2)], [0])].
+Proof. split; reflexivity. Qed.
+
+(* the 3.0 rule for X**-0.5: rx(pi*-0.5) read with stdgates.inc is the documented matrix up to exp(-i pi/4) *)
+Section V3.
+  Context {K : Type} (O : Ops K) (L : Laws O).
+  Add Ring Kring6 : (law_ring O L).
+  Theorem qasm_rule_x_mhalf_v3 : spec_XPow O (w8c O) (w8 O) (k1 O) = mscale O (w8c O) (qmat O true (QRx (w8c O) (w8 O))).
+  Proof.
+    assert (U : kmul O (w8c O) (w8 O) = k1 O) by (rewrite <- (w8_unit O L); ring).
+    assert (U1 : kmul O (k1 O) (k1 O) = k1 O) by ring.
+    unfold qmat. rewrite (stdgates_rx O L (w8c O) (w8 O) (k1 O) (k1 O) (k1 O) (k1 O) U U1 U1).
+    rewrite (qasm_rule_rx O L (w8c O) (w8 O) (k1 O) U). f_equal. ring.
+  Qed.
+End V3.
 
 (* controlled H: a constant matrix identity, checked exactly in Q(zeta_8) *)
 Theorem emit_sound_CtrlH v3 s e :
